@@ -8,6 +8,7 @@ out=/verif/seeded/$id; mkdir -p $out /verif/out/confirm
 if [ -n "$wt" ] && [ -d $wt/_seed ]; then
   cp $wt/_seed/patch.diff $out/patch.diff
   cp $wt/_seed/meta.json $out/meta.agent.json
+  echo $wt > $out/agent_worktree.txt
   for f in $(cd $wt && find . -name 'zz_demo*' -not -path './_seed/*' -type f); do mkdir -p $out/demo/$(dirname $f); cp $wt/$f $out/demo/$f; done
 fi
 d=/tmp/mine/confirm-$id
@@ -17,7 +18,8 @@ export GOFLAGS=-mod=mod GOPROXY=off
 demos=$(cd $out/demo && find . -type f)
 for f in $demos; do mkdir -p $d/$(dirname $f); cp $out/demo/$f $d/$f; done
 cmd=$(python3 -c "import json;print(json.load(open('$out/meta.agent.json'))['demo_cmd'])")
-cmd=$(echo "$cmd" | sed "s#/tmp/wt-$id#$d#g")
+awt=$(cat $out/agent_worktree.txt 2>/dev/null || echo /tmp/wt-$id)
+cmd=$(echo "$cmd" | sed "s#$awt#$d#g")
 cd $d
 log=/verif/out/confirm/$id
 echo "== demo WITHOUT the change: $cmd"; timeout 3000 bash -c "$cmd" > $log.demo0 2>&1; r0=$?; tail -3 $log.demo0
